@@ -34,9 +34,9 @@ Section Closure.
 Variable vs : list edge_view.
 Variable lo : bool.
 
-Definition ups (x : bytes) : list bytes := if bytes_eqb x str_none then [] else sel_ups vs lo x.
+Definition ups (x : bytes) : list bytes := sel_ups vs lo x.
 
-(* y is reachable from x by following parent links upwards (none is never expanded) *)
+(* y is reachable from x by following parent links upwards *)
 Inductive reach (x : bytes) : bytes -> Prop :=
 | reach_refl : reach x x
 | reach_step z y : reach x z -> In y (ups z) -> reach x y.
@@ -99,8 +99,7 @@ Proof. intros Hx. apply unseen_add_gen. apply mem_bytes_false. exact Hx. Qed.
 
 Lemma ups_le x seen : ~ In x seen -> unseen (x :: seen) + length (ups x) <= unseen seen.
 Proof.
-  intros Hx. pose proof (unseen_add x seen Hx). pose proof (sel_ups_le x). unfold ups.
-  destruct (bytes_eqb x str_none); cbn [length]; lia.
+  intros Hx. pose proof (unseen_add x seen Hx). pose proof (sel_ups_le x). unfold ups. lia.
 Qed.
 
 Lemma closure_complete_gen x0 f : forall todo seen,
